@@ -57,10 +57,15 @@ def is_alias_call(v):
 
 
 def peel(v):
-    """strip alias-preserving calls"""
+    """strip alias-preserving calls and alias placeholders"""
     seen = 0
-    while is_alias_call(v) and seen < 50:
-        v = v.kids[0]
+    while seen < 60:
+        if v.kind == "alias" and v.kids:
+            v = v.kids[0]
+        elif is_alias_call(v):
+            v = v.kids[0]
+        else:
+            break
         seen += 1
     return v
 
@@ -209,8 +214,10 @@ def vstr(v, depth=4):
         return "discr(%s)" % vstr(v.kids[0], depth - 1)
     if k == "repeat":
         return "[%s; %s]" % (vstr(v.kids[0], depth - 1), v.d.get("n"))
-    if k == "upvar":
-        return "upvar:%s" % v.d.get("name")
+    if k == "alias" and v.kids:
+        return vstr(v.kids[0], depth)
+    if k == "pending":
+        return "<rec>"
     return k
 
 
@@ -418,6 +425,8 @@ class FnVals:
         return v
 
     def _field(self, base, name, idx, adt):
+        if base.kind == "alias" and base.kids:
+            return self._field(base.kids[0], name, idx, adt)
         if base.kind == "agg":
             a = base.d["agg"]
             if a.get("kind") in ("adt", "tuple", "closure") and idx < len(base.kids):
@@ -458,19 +467,33 @@ class FnVals:
     def _node_of(self, d):
         n = self._node.get(d)
         if n is not None:
-            return n if n != "busy" else V("cycle", {}, [], fn=self.fn)
-        self._node[d] = "busy"
-        n = self._make(d)
-        self._node[d] = n
-        return n
+            if n.kind == "pending":
+                n.d["referenced"] = True
+            return n
+        ph = V("pending", {}, [], fn=self.fn)
+        self._node[d] = ph
+        real = self._make(d, ph)
+        if real is ph:
+            return ph
+        if ph.d.get("referenced"):
+            # a copy chain closed a cycle through this definition: keep the placeholder as a transparent alias
+            ph.kind, ph.d, ph.kids = "alias", {}, [real]
+            return ph
+        self._node[d] = real
+        return real
 
-    def _make(self, d):
+    @staticmethod
+    def _fill(ph, kind, d, kids):
+        ph.kind, ph.d, ph.kids = kind, d, kids
+        return ph
+
+    def _make(self, d, ph):
         fn = self.fn
         k = d[0]
         if k == "param":
-            return V("param", dict(idx=d[1], name=fn.local_user(d[1]), ty=fn.local_ty(d[1])), fn=fn)
+            return self._fill(ph, "param", dict(idx=d[1], name=fn.local_user(d[1]), ty=fn.local_ty(d[1])), [])
         if k == "uninit":
-            return V("uninit", dict(local=d[1]), fn=fn)
+            return self._fill(ph, "uninit", dict(local=d[1]), [])
         if k == "assign":
             bb, i = d[1], d[2]
             s = fn.blocks[bb]["stmts"][i]
@@ -480,19 +503,20 @@ class FnVals:
             s = fn.blocks[bb]["stmts"][i]
             prev = self.at_local(s["place"]["local"], bb, i)
             val = self._rv(s["rv"], bb, i)
-            return V("withfield", dict(path=path), [prev, val], fn=fn)
+            return self._fill(ph, "withfield", dict(path=path), [prev, val])
         if k == "calldest":
             bb = d[1]
             t = fn.blocks[bb]["term"]
             n = len(fn.blocks[bb]["stmts"])
+            ph.d = dict(bb=bb, term=t, referenced=ph.d.get("referenced"))
             kids = [self.at_operand(a, bb, n) for a in t["args"]]
-            return V("call", dict(bb=bb, term=t), kids, fn=fn)
+            return self._fill(ph, "call", dict(bb=bb, term=t), kids)
         if k == "callfieldw":
             bb, path = d[1], d[2]
             t = fn.blocks[bb]["term"]
             n = len(fn.blocks[bb]["stmts"])
             prev = self.at_local(t["dest"]["local"], bb, n)
-            return V("withfield", dict(path=path), [prev, self._node_of(("calldest", bb))], fn=fn)
+            return self._fill(ph, "withfield", dict(path=path), [prev, self._node_of(("calldest", bb))])
         if k == "mutarg":
             bb, ai, path = d[1], d[2], d[3]
             t = fn.blocks[bb]["term"]
@@ -500,8 +524,8 @@ class FnVals:
             p = op_place(t["args"][ai])
             tgt = self.ref_target(p["local"], bb, n)
             prev = self.at_local(tgt["local"], bb, n) if tgt else V("unknown", fn=fn)
-            return V("mut", dict(path=path, argpos=ai), [prev, self._node_of(("calldest", bb))], fn=fn)
-        return V("unknown", fn=fn)
+            return self._fill(ph, "mut", dict(path=path, argpos=ai), [prev, self._node_of(("calldest", bb))])
+        return self._fill(ph, "unknown", {}, [])
 
     def _rv(self, rv, bb, i):
         fn = self.fn
